@@ -21,7 +21,7 @@ RULE = (
     ' A tenth of the signed runs converge on a tiny negative value or -0.0; 15% of the multi-call runs reassign convergence_precision between two calls (the rule is evaluated with the precision in force); 6% of the runs contain a request of 20-30 batches, mostly converging late in that call.'
 )
 ASSUMPTIONS = ["scripted values are kept a factor 1.02 away from the 0.5*10^-p rounding boundary; exact boundary values are not generated"]
-REQUIRED_COUNTERS = {"calls_of_20_batches_or_more": 10, "converging_value_negative_or_minus_zero": 12, "precision_reassigned_between_calls": 15, "same_calibration_ran_longer_in_the_folder_before": 20, "saving_folder_used_before_by_another_run": 30, "runs_with_a_history_reading_sampler": 60, "runs_with_signed_loss": 40, "runs_on_a_three_point_grid": 30, "numpy_integer_precision": 30, "continued_after_restore": 40, "runs": 200, "converged_inside": 60, "never_converged": 30, "no_precision": 10, "verbose_twins": 60, "folder_restores": 40,
+REQUIRED_COUNTERS = {"second_restores_after_a_further_call": 40, "calls_of_20_batches_or_more": 10, "converging_value_negative_or_minus_zero": 12, "precision_reassigned_between_calls": 15, "same_calibration_ran_longer_in_the_folder_before": 20, "saving_folder_used_before_by_another_run": 30, "runs_with_a_history_reading_sampler": 60, "runs_with_signed_loss": 40, "runs_on_a_three_point_grid": 30, "numpy_integer_precision": 30, "continued_after_restore": 40, "runs": 200, "converged_inside": 60, "never_converged": 30, "no_precision": 10, "verbose_twins": 60, "folder_restores": 40,
                      "later_calls_after_convergence": 20}
 SHARDS = {"quick": 8, "thorough": 16}
 
@@ -244,6 +244,17 @@ def one_run(rng, ctx, out):
                 c["continued_after_restore"] = c.get("continued_after_restore", 0) + 1
                 if rest.current_batch_index - b0 != want:
                     out["violations"].append({"msg": f"restored calibrator (precision {p}): calibrate(2) ran {rest.current_batch_index - b0} batches, the rounding rule gives {want}",
+                                              "witness": dict(wit, verbose=verbose)})
+            # the live run goes on in the same folder (one more call: at least one batch, a new checkpoint) and the folder is restored a
+            # SECOND time in this process: it holds the state the last call returned with, nothing remembered from the first restore
+            if not out["violations"] and rng.random() < 0.6:
+                with quiet():
+                    cal.calibrate(1)
+                    rest2 = Calibrator.restore_from_checkpoint(folder, model)
+                c["second_restores_after_a_further_call"] = c.get("second_restores_after_a_further_call", 0) + 1
+                d2 = S.diff(S.snapshot(cal), S.snapshot(rest2))
+                if d2:
+                    out["violations"].append({"msg": f"second restore of the folder in one process, after one more calibrate(1) (precision {plist[-1]}): the checkpoint does not hold the returned state: " + "; ".join(d2[:3]),
                                               "witness": dict(wit, verbose=verbose)})
         except Exception as e:  # noqa: BLE001
             out["violations"].append({"msg": f"restore raised {type(e).__name__}: {str(e)[:160]}", "witness": wit})
